@@ -142,6 +142,13 @@ def fold_task(task, res):
         e.assume(rec['md'] <= maxluq)
         e.assume(rec['sd'] <= maxluq * nl)
         e.assume(rec['md'] <= rec['sd'])
+        # reachable statistics of a matching of this model: ranks are at most R (students) / nst (lecturers)
+        e.assume(rec['size'] <= nst)
+        e.assume(rec['cost'][0] <= rec['size'] * R)
+        e.assume(rec['cost'][1] <= rec['size'] * nst)
+        e.assume(rec['sq'][0] <= rec['size'] * R * R)
+        e.assume(rec['sq'][1] <= rec['size'] * nst * nst)
+        e.assume(rec['deg'] <= R)
         pre = None
         if mode == 'step':
             pre = {'size': fi('S'), 'cost': (fi('C'), fi('C')), 'sq': (fi('Q'), fi('Q')), 'deg': fi('G'),
@@ -472,7 +479,8 @@ def replay(cex):
                 luq = [max(t, rng.choice([1, 2, 3])) for t in lt]
             else:
                 llq, lt, luq = list(plq), list(puq), list(puq)
-            dd = {'kind': 'e2e', 'shape': lpchecks.shape_data(I), 'num': [plq, puq, llq, lt, luq], 'pc': bool(trial % 2), 'twopl': False}
+            dd = {'kind': 'e2e', 'shape': lpchecks.shape_data(I), 'num': [plq, puq, llq, lt, luq], 'pc': bool(trial % 2),
+                  'twopl': I.lprefs is not None and trial % 3 != 0}
             bad, what, detail = e2e_run(dd)
             if bad:
                 return True, 'fold-step counterexample (%s) shown end to end:\n%s' % (cex['what'], detail)
